@@ -308,6 +308,14 @@ def c17_streams(tier, scale):
     st.append(dict(name="C12", executor="dij", gen="graph", cfg=dict(prop="C12", classes=_classes(["DW", "UW"]), nmax="12", xmax="17", extra="wmode int"), cases=n(800, 15000), max_size=50))
     st.append(dict(name="C19bfs", executor="bfs", gen="family", cfg=dict(prop="C19", classes=_classes(["DS", "US"])), cases=n(150, 3000), max_size=100))
     st.append(dict(name="C08", executor="iter", gen="graph", cfg=dict(prop="C08", classes=_classes(ALL8, ["int", "string"]), nmax="8", pads="1"), cases=n(800, 15000), max_size=50))
+    # file IO, subgraphs, conversions and container constructors are public entry points too: the round-trip / extraction / conversion
+    # streams of C13, C14, C10 and C09 under the sanitizers + libstdc++ debug mode and under an unoptimised build (two builds: their
+    # executors are the slowest to compile)
+    io = ["san", "o0"]
+    st.append(dict(name="C13", executor="text", gen="graph", cfg=dict(jobs_C13(tier, scale)[0]["cfg"]), cases=n(800, 12000), max_size=50, configs=io))
+    st.append(dict(name="C14", executor="bin", gen="graph", cfg=dict(jobs_C14(tier, scale)[0]["cfg"]), cases=n(600, 10000), max_size=50, configs=io))
+    st.append(dict(name="C10", executor="sub", gen="graph", cfg=dict(jobs_C10(tier, scale)[0]["cfg"]), cases=n(500, 8000), max_size=50, configs=io))
+    st.append(dict(name="C09", executor="conv", gen="graph", cfg=dict(jobs_C09(tier, scale)[1]["cfg"]), cases=n(600, 10000), max_size=50, configs=io))
     return st
 
 
@@ -315,7 +323,7 @@ def jobs_C17(tier, scale):
     configs = ["san", "plain", "o0"] if tier == "quick" else ["san", "plain", "o0", "clangasan", "gccO2"]
     jobs = []
     for si, stream in enumerate(c17_streams(tier, scale)):
-        for config in configs:
+        for config in stream.get("configs", configs):
             jobs.append(dict(engine="pbt", executor=stream["executor"], config=config, gen=stream["gen"], cfg=dict(stream["cfg"]), cases=stream["cases"], shards=1,
                              max_size=stream["max_size"], seed_group=100 + si, stream=stream["name"], extra=dict(dump=1),
                              label="stream %s under build %s" % (stream["name"], config)))
